@@ -107,6 +107,35 @@ def evaluate(chk, progs, name):
     return e64, e32, set(d64) | set(d32)
 
 
+def extra_shapes(prog):
+    """Shape predicates for the keys of known findings that concern C12's family (cf. progcheck.shape_flags)."""
+    flags = set()
+    rectypes = {f["x"] for f in prog["top"] if f.get("d") == "var" and isinstance(f.get("t"), list) and f["t"][0] == "rec"}
+    value_changing = {"si.sub": ("si.add", "si.sub"), "si.mul": ("si.quo", "si.rem"),
+                      "si.quo": ("si.mul", "si.quo", "si.rem"), "si.rem": ("si.mul", "si.quo", "si.rem")}
+
+    def walk(x, in_loop, in_fun):
+        if isinstance(x, dict):
+            e = x.get("e")
+            if e == "prim" and x["op"] in value_changing and len(x["args"]) == 2 and x["args"][1].get("e") == "prim" \
+                    and x["args"][1]["op"] in value_changing[x["op"]]:
+                flags.add("si-right-nested-arith")           # a - (b +- c), a * (b quo c), a quo (b * c) ...
+            if e in ("while", "for", "forin") and not in_fun:
+                in_loop = True
+            if e == "asg" and in_loop and not in_fun and x["x"] in rectypes:
+                flags.add("record-assigned-in-file-level-loop")
+            if e in ("lam", "gen"):
+                in_fun = True
+            for v in x.values():
+                walk(v, in_loop, in_fun)
+        elif isinstance(x, list):
+            for v in x:
+                walk(v, in_loop, in_fun)
+    walk(prog["top"], False, False)
+    walk([f["body"] for f in prog["funs"]], False, True)
+    return sorted(flags)
+
+
 def built_of(kind):
     return {"compile-reject": "compile", "javac-fail": "javac", "timeout": "timeout", "fault": "fault"}.get(kind, "ok")
 
@@ -186,7 +215,8 @@ def campaign(chk, build, progs, name, workdir, stats, corrupt=None):
             raise vlib.MachineryError("TLC rejects run %s/%s/Q%d (%s) that the harness classifies as conforming" % (p["id"], route, q, v["why"]))
         kind, sig = cl if cl else ("route-disagreement", "")
         sig = java_sig(r, kind, sig)
-        key = {"kind": kind, "sig": sig, "shapes": progcheck.shape_flags(p), "route": route, "opts": ["-Q%d" % q], "why": sorted(v["why"])}
+        key = {"kind": kind, "sig": sig, "shapes": progcheck.shape_flags(p) + extra_shapes(p), "route": route, "opts": ["-Q%d" % q],
+               "why": sorted(v["why"])}
         detail = {"program_id": p["id"], "route": route, "level": q, "why": v["why"], "kind": kind, "sig": sig,
                   "expected_out": exp["out"][:4000], "expected_status": exp["status"],
                   "got_out": r["out"][:4000], "got_err": r["err"][:3000], "rc": r["rc"], "phase": r["phase"],
